@@ -6,5 +6,9 @@ define("point(D, n)", "forall(k, 0, n, D[k, MIN] == D[k, MAX])")
 # relation of posted constraint p on a tuple t; V(p) is sigma seen through the variables of p (shared domain value + offset).
 define("tv(p)", "ufun_arr('V', var_bounds[p, RG_END] - var_bounds[p, RG_START], p)")
 define("rel_holds(p)", "ufun_bool('Rel', p, tv(p))")
-define("sol()", "forall(p, 0, P, rel_holds(p))")
+# opaque outside bound_consistency_algorithm (the only function that needs its definition, see SOL_DEF)
+define("sol()", "ufun_bool('IsSol', sigma)")
 define("in_box(S, l)", "forall(d, 0, D, S[l, d, MIN] <= sigma[d] and sigma[d] <= S[l, d, MAX])")
+define("remaining(S, t)", "exists(l, 0, t + 1, in_box(S, l))")
+# two stack levels are separated on the domain recorded when the lower one was left as an alternative (no existential needed)
+define("disjoint_levels(S, U, t)", "forall(l1, 0, t, forall(l2, l1 + 1, t + 1, S[l1, U[l1, 0], MAX] < S[l2, U[l1, 0], MIN] or S[l2, U[l1, 0], MAX] < S[l1, U[l1, 0], MIN]))")
